@@ -1,2 +1,60 @@
-(** C23 - under construction *)
-From DicomV Require Import Model.Json.
+(** C23 - DICOM JSON serialisation round-trips; deserialising never panics.
+    Statements only; proofs are in Proofs/JsonBaseP.v, JsonP.v, JsonTotalP.v.
+
+    [ser] is dicom_json::to_value, [de] is dicom_json::from_value, [de_text] is
+    dicom_json::from_str on syntactically valid text (Model/Json.v). [X : ext]
+    holds the trusted float <-> decimal text functions of Rust's std; every
+    theorem holds for all of them. *)
+From DicomV Require Import Model.Json Proofs.JsonBaseP Proofs.JsonP Proofs.JsonTotalP.
+
+(** Round trip, any nesting depth: a well-formed data set (ascending tags, no
+    encapsulated pixel data, value kinds that fit the VR) serialises, and the
+    result deserialises to the data set normalised as documented ([norm_dset]:
+    padding trimmed, IS/DS as numeric strings, binary VRs as bytes, numbers in
+    the VR's native type, NaN payloads dropped, empty trailing PN groups dropped). *)
+Theorem C23_rt : forall X d,
+  wf_dset d = true -> exists j, ser X d = Ok j /\ de X j = Ok (norm_dset X d).
+Proof. exact de_ser_roundtrip. Qed.
+
+(** Deserialising any JSON value returns a data set or an error: the
+    [unreachable!()] of DataElementVisitor::visit_map and every other panic of
+    the model cannot be reached (after fix 0bd6776). *)
+Theorem C23_total : forall X j w, de X j <> Panic w.
+Proof. exact de_never_panics. Qed.
+
+(** ... also through from_str, where documents may repeat keys. *)
+Theorem C23_total_text : forall X j w, de_text X j <> Panic w.
+Proof. exact de_text_never_panics. Qed.
+
+(** The scalar round trips the theorem rests on, for all inputs. *)
+Theorem C23_base64 : forall b, wf_bytes b -> b64dec (b64enc b) = Some b.
+Proof. exact b64dec_enc. Qed.
+Theorem C23_float32 : forall b, b < 2 ^ 32 -> f32_finite b = true -> f64_to_f32 (f32_to_f64 b) = b.
+Proof. exact narrow_widen. Qed.
+Theorem C23_int_text : forall signed lo hi z,
+  (lo <= z <= hi)%Z -> (z < 0 -> signed = true)%Z -> parse_int signed lo hi (dec_Z z) = Some z.
+Proof. exact parse_int_dec_Z. Qed.
+Theorem C23_tag_key : forall t, t < 2 ^ 32 -> tag_from_str (hex8 t) = Some t.
+Proof. exact tag_from_str_hex8. Qed.
+
+(** Non-vacuity: a data set with a nested sequence, a person name with component
+    groups, non-finite floats, a 64-bit integer and binary data is well-formed. *)
+Definition C23_example : dset :=
+  dset_of [ (524309, V_SQ, vseq [dset_of [(1048608, V_LO, VPrim (PStrs [[73; 68; 32]]))]; dset_of []]);
+            (1048592, V_PN, VPrim (PStrs [[65; 61; 66; 61; 67]]));
+            (1572944, V_FL, VPrim (PF32 [2143289345; 4286578688; 1069547520]));
+            (1572945, V_UV, VPrim (PInt KU64 [18446744073709551615%Z]));
+            (2145386512, V_OW, VPrim (PInt KU16 [1%Z; 65534%Z])) ].
+Example C23_nonvacuous : wf_dset C23_example = true.
+Proof. reflexivity. Qed.
+
+Check C23_rt : forall X d, wf_dset d = true -> exists j, ser X d = Ok j /\ de X j = Ok (norm_dset X d).
+Check C23_total : forall X j w, de X j <> Panic w.
+Check C23_total_text : forall X j w, de_text X j <> Panic w.
+Print Assumptions C23_rt.
+Print Assumptions C23_total.
+Print Assumptions C23_total_text.
+Print Assumptions C23_base64.
+Print Assumptions C23_float32.
+Print Assumptions C23_int_text.
+Print Assumptions C23_tag_key.
